@@ -101,8 +101,8 @@ fn to_digest(a: Alg) -> Digest {
     }
 }
 
-pub const BOUNDARY_LENGTHS: [usize; 18] =
-    [0, 1, 55, 56, 57, 63, 64, 65, 111, 112, 119, 120, 127, 128, 129, 8191, 8192, 8193];
+pub const BOUNDARY_LENGTHS: [usize; 22] =
+    [0, 1, 55, 56, 57, 63, 64, 65, 111, 112, 119, 120, 127, 128, 129, 8191, 8192, 8193, 16384, 32768, 65536, 131072];
 
 fn data_strategy(tier: Tier) -> BoxedStrategy<Vec<u8>> {
     let max = tier.pick(20_000usize, 40_960usize);
@@ -115,7 +115,7 @@ fn data_strategy(tier: Tier) -> BoxedStrategy<Vec<u8>> {
     let patch = (
         prop::collection::vec(patch_line, 0..30),
         any::<bool>(),
-        prop::option::weighted(0.5, (8170usize..8200, prop::sample::select(vec![&b"$NetBSD$"[..], b"x$NetBSD: y $", b"$NetBS", b"plain"]))),
+        prop::option::weighted(0.6, (prop_oneof![2 => 8170usize..8200, 2 => 0usize..9000, 1 => 1000usize..1050, 1 => 4080usize..4110, 1 => 16370usize..16400], prop::sample::select(vec![&b"$NetBSD$"[..], b"x$NetBSD: y $", b"$NetBS", b"plain", b"$NetBSD"]))),
     )
         .prop_map(|(lines, final_nl, pad)| {
             let mut v = vec![];
@@ -147,7 +147,7 @@ fn data_strategy(tier: Tier) -> BoxedStrategy<Vec<u8>> {
         });
     prop_oneof![
         // lengths concentrated on block boundaries +- 1
-        4 => (0usize..BOUNDARY_LENGTHS.len(), 0usize..3, any::<u8>()).prop_flat_map(move |(i, d, fill)| {
+        4 => (prop_oneof![20 => 0usize..18, 1 => 18usize..BOUNDARY_LENGTHS.len()], 0usize..3, any::<u8>()).prop_flat_map(move |(i, d, fill)| {
             let n = (BOUNDARY_LENGTHS[i] + d).saturating_sub(1);
             prop_oneof![
                 1 => Just(vec![fill; n]),
